@@ -113,6 +113,15 @@ def handle : List String → String
     match fromHex h0, fromHex h1 with
     | some b0, some b1 => showRes (do let a ← walkLine b0 false; let b ← walkLine b1 false; .ok s!"{a} / {b}")
     | _, _ => "bad-op"
+  | ["edit", op, _kind, hex, _aux, _ext] =>
+    -- parse → (edit) → emit on the tree model; `embed-*` emit the parsed token inside a fresh signer info
+    match fromHex hex with
+    | some bs =>
+      if op = "cat" then showRes (do let sd ← sdWalk bs; .ok s!"ci={toHex sd.ci}")
+      else if op = "detach" then
+        showRes (do let _ ← walkLine bs true; let f ← sdForest bs; .ok (toHex (emit (detachSD f))))
+      else showRes (do let f ← sdForest bs; .ok (toHex (emit f)))
+    | none => "bad-op"
   | _ => "bad-op"
 
 end Relic.Driver.C16
